@@ -40,9 +40,9 @@ var badDates = []string{"2020-13-01", "2020-00-10", "2020-01-00", "2020-02-30", 
 	"20-01-01", "02020-01-01", "2020.01.01", "2020-01-01x", "x2020-01-01", "2020-01-32", "abcd-01-01", "2020-0a-01", "2020-01-011", "2020_01_01", "2020-01-01-", "-2020-01-01", "2020–01–01", "٢٠٢٠-01-01",
 	"\ufeff2020-01-01", "\u200b2020-01-01", "2020-01-01\u200b", "\u20602020-01-01", "2020\u00ad-01-01", "２０２０-01-01"}
 
-var badHeadlineTails = []string{" foo", " (8h)", " 8h!", " (8h!) x", " (8h!)x", " (!)", " ()", " (8h!", " 8h!)", " (8x!)", " (8h!!)", " (1h60m!)", " (8h! 7h!)", "(8h!)", " [8h!]", " (8h!) (7h!)", " #tag", " (8:00!)", " (eight!)", " (8h\u2021)", " \u01288h!\u0129", "\u2020(8h!)", "(8h!)", " (  8h! x)", " (   ab)", " (  x)", " (     )", " (\t8h! y)", " ( 8h!  )x", " (  8h!", " (   "}
+var badHeadlineTails = []string{" foo", " (8h)", " 8h!", " (8h!) x", " (8h!)x", " (!)", " ()", " (8h!", " 8h!)", " (8x!)", " (8h!!)", " (1h60m!)", " (8h! 7h!)", "(8h!)", " [8h!]", " (8h!) (7h!)", " #tag", " (8:00!)", " (eight!)", " (9223372036854775807h!)", "\u00a0(8h!)", " (8h!)\u00a0x", " (\u00a08h!)", " (8h\u2021)", " \u01288h!\u0129", "\u2020(8h!)", "(8h!)", " (  8h! x)", " (   ab)", " (  x)", " (     )", " (\t8h! y)", " ( 8h!  )x", " (  8h!", " (   "}
 
-var badValues = []string{"8:00\u2020-\u20209:00", "8:00\u0120- ?", "8\u013a00 - 9:00", "8:00 \u012d 9:00", "1\u0168", "30\u016d", "\u0131:00 - 2:00", "8:00 - \u013f", "8:30AM - 9:00AM", "1:15Pm - 2:00pm", "8:00 - 6:00PM", "<11:00pM - 1:00am", "6:00AM> - ?", "8:00am - ?PM", "1H", "1h30M", "8:0 - 9:00", "25:00 - 26:00", "24:01 - 24:02", "13:00pm - 2:00pm", "0:30am - 1:00am", "<8:00> - 9:00", "24:00> - 1:00>", "8:60 - 9:00", "8:00 9:00", "8:00 -", "8:00 - ", "8:00 - ?>", "8:00 - <?",
+var badValues = []string{"9223372036854775807h", "99999999999999999999h", "-9223372036854775808m", "153722867280912930h08m", "1h\u00a0note", "8:00\u2003-\u20039:00", "8:00 - 9:00\u3000note", "8:00\u00a0- ?", "8:00\u2020-\u20209:00", "8:00\u0120- ?", "8\u013a00 - 9:00", "8:00 \u012d 9:00", "1\u0168", "30\u016d", "\u0131:00 - 2:00", "8:00 - \u013f", "8:30AM - 9:00AM", "1:15Pm - 2:00pm", "8:00 - 6:00PM", "<11:00pM - 1:00am", "6:00AM> - ?", "8:00am - ?PM", "1H", "1h30M", "8:0 - 9:00", "25:00 - 26:00", "24:01 - 24:02", "13:00pm - 2:00pm", "0:30am - 1:00am", "<8:00> - 9:00", "24:00> - 1:00>", "8:60 - 9:00", "8:00 9:00", "8:00 -", "8:00 - ", "8:00 - ?>", "8:00 - <?",
 	"8:00 - ?x", "8:00 – 9:00", "8:00 -- 9:00", "8.00 - 9.00", "8h00 - 9h00", "800 - 900", "8:00am-", "1h60m", "h", "1m1h", "1.5h", "1,5h", "1hm", "5", "1h5", "−1h", "+-1h", "1h1h", "one hour", "8:00 - 9:00pmx",
 	"8:00\t-\t9:00", "8:00 -\t9:00", "8:00 \t- 9:00", "8:00-\t9:00", "8:00 -\t?", "8:00 \t-?", "8:00am-\t1:00pm", "8:00 - \t9:00", "8:00 - 9:00>>", "<<8:00 - 9:00", "8:00 - 9:0", "8:000 - 9:00", "008:00 - 9:00", "8:00 - 24:00>", "12:00am - 13:00am", "#tag", "- 1h", "?", "? - 9:00", "8:00 - ? - ?"}
 
